@@ -221,8 +221,11 @@ impl Operator {
 }
 
 fn escape_filter_value(value: &str) -> Cow<'_, str> {
-    if value.contains('"') {
-        Cow::Owned(value.replace('"', r#"\\""#))
+    if value.contains(['"', '\\']) {
+        // The value is unescaped twice by the server (once as part of the quoted argument, once
+        // as a quoted string inside the expression), so a literal backslash has to be doubled on
+        // both levels
+        Cow::Owned(value.replace('\\', r"\\\\").replace('"', r#"\\""#))
     } else {
         Cow::Borrowed(value)
     }
